@@ -156,16 +156,10 @@ def run(F, R, tier):
     gets = [n for n in pt["_nodes"] if n.get("k") == "MethodCall" and n["name"] == "get" and field_of(n["recv"]) == "redirects"]
     R.ob("C17-b", "the walk follows redirects", len(gets) == 1, "prune_types no longer consults self.redirects", pt["file"])
     for gt in gets:
-        m = gt["_p"]
-        while m is not None and m.get("k") not in ("Match", "If"):
-            m = m.get("_p")
         ok = False
-        if m is not None and m.get("k") == "Match":
-            for arm in m["arms"]:
-                if pat_text(arm["pat"]).startswith("std::option::Option::Some("):
-                    binds = {b["lid"] for b in pat_bindings(arm["pat"])}
-                    adds = [n for n in walk(arm["body"]) if n.get("k") == "MethodCall" and n["name"] == "add"]
-                    ok = len(adds) == 1 and peel_value(adds[0]["args"][0]).get("lid") in binds
+        for binds, region in matched_regions(gt):
+            adds = [n for r_ in region for n in walk(r_) if n.get("k") == "MethodCall" and n["name"] == "add"]
+            ok = len(adds) == 1 and any(peel_value(y).get("lid") in binds for y in through_locals(adds[0]["args"][0]))
         R.ob("C17-b", "a redirect source queues its *next hop* (every hop of a chain is walked and retained)", ok,
              "the redirect branch of prune_types does not queue the redirect's own target: intermediate hops of a redirect chain are never seen, so `redirects.retain` drops them and the chain dangles", where(gt))
     spc = F.adt("collections::SeenPendingCollection")
